@@ -19,7 +19,7 @@ RULE = ('(1) Hypothesis-generated programs with arrays (literal with call-valued
         'sees the (fp, ap) the loop was entered with; the first statement of a stop handler and the end of the try statement '
         'see the (fp, ap) of try entry - plus the C04 entitlement monitor (an array released early shows as an access outside '
         'every live extent) and the differential against the reference interpreter at 400 words and at the minimal stack size '
-        '(a leak shows as a spurious stack_overflow). Non-trivial: the run released at least one array through a break, '
+        '(a leak shows as a spurious stack_overflow); for fault-free cases the same monitors and comparison also run on the --unchecked build. Non-trivial: the run released at least one array through a break, '
         'continue or return statement, or entered a stop handler. Distinct by hash of (source, argv, word size). (2) ScopeHistory, a '
         'RuleBasedStateMachine (props/c08_machine.py): rules append segments to the body of one counted loop, each guarded by the '
         'iteration number modulo a period P, so that successive iterations leave by different routes (fall through, continue, nested '
